@@ -182,6 +182,17 @@ Fixpoint th_run (t : tracer) (ops : list item) : option bool :=
     end
   end.
 
+(** same, returning the final state *)
+Fixpoint th_run_state (t : tracer) (ops : list item) : option (tracer * bool) :=
+  match ops with
+  | [] => Some (t, true)
+  | o :: rest =>
+    match th_step t o with
+    | Some (t', ok) => if ok then th_run_state t' rest else Some (t', false)
+    | None => None
+    end
+  end.
+
 Definition th_check_items (c : list item) : option bool :=
   match c with
   | [IL ops] => th_run tracer_empty ops
